@@ -176,6 +176,9 @@ pub struct ModTable {
     pub make_box: extern "C" fn(u64) -> CBox<'static, u64>,
     pub box_get: extern "C" fn(&CBox<'static, u64>) -> u64,
     pub box_drop: extern "C" fn(CBox<'static, u64>),
+    pub make_sbox: extern "C" fn(u64, u64) -> cglue::boxed::CSliceBox<'static, u64>,
+    pub sbox_sum: extern "C" fn(&cglue::boxed::CSliceBox<'static, u64>) -> u64,
+    pub sbox_drop: extern "C" fn(cglue::boxed::CSliceBox<'static, u64>),
 }
 
 extern "C" fn make_ctx() -> Ctx { CArc::<Token>::from(Arc::new(Token::new())).into_opaque() }
@@ -243,11 +246,14 @@ extern "C" fn tarc_drop(c: CArc<Token>) { drop(c) }
 extern "C" fn make_box(v: u64) -> CBox<'static, u64> { CBox::from(v) }
 extern "C" fn box_get(b: &CBox<'static, u64>) -> u64 { **b }
 extern "C" fn box_drop(b: CBox<'static, u64>) { drop(b) }
+extern "C" fn make_sbox(v: u64, n: u64) -> cglue::boxed::CSliceBox<'static, u64> { let b: Box<[u64]> = (0..n).map(|i| v.wrapping_add(i)).collect::<Vec<u64>>().into_boxed_slice(); b.into() }
+extern "C" fn sbox_sum(b: &cglue::boxed::CSliceBox<'static, u64>) -> u64 { b.iter().fold(0u64, |a, x| a.wrapping_add(*x)) }
+extern "C" fn sbox_drop(b: cglue::boxed::CSliceBox<'static, u64>) { drop(b) }
 
 pub static TABLE: ModTable = ModTable {
     make_ctx, ctx_clone, ctx_drop, make_obj, obj_get, obj_add, obj_label_len, obj_into_total, obj_drop, make_grp, grp_get, grp_clone, grp_put, grp_sum,
     grp_visit_local_cb, grp_fill_local_iter, grp_has_store, grp_into_total, grp_drop, make_vec, vec_push, vec_insert, vec_pop, vec_remove, vec_reserve, vec_clone, vec_sum, slice_sum, vec_drop, stats,
-    make_tarc, tarc_clone, tarc_opaque, tarc_drop, make_box, box_get, box_drop,
+    make_tarc, tarc_clone, tarc_opaque, tarc_drop, make_box, box_get, box_drop, make_sbox, sbox_sum, sbox_drop,
 };
 
 #[no_mangle]
